@@ -3,6 +3,7 @@ package main
 import (
 	"fmt"
 	"math/big"
+	"strings"
 
 	"github.com/tuneinsight/lattigo/v6/core/rlwe"
 	"github.com/tuneinsight/lattigo/v6/ring"
@@ -26,6 +27,14 @@ const evalSeqLen = 3
 
 var evalSeqOps = []string{"Automorphism(late key)", "AutomorphismHoisted(late key)", "Automorphism(second late key)",
 	"AutomorphismHoistedLazy+ModDown(late key)", "Relinearize(late rlk)", "Automorphism(key present at creation)"}
+
+// ksig: a known-class signature (marked by a trailing '#') is used as is, otherwise sig+clause.
+func ksig(sig, clause string) string {
+	if strings.HasSuffix(sig, "#") {
+		return strings.TrimSuffix(sig, "#")
+	}
+	return sig + clause
+}
 
 var creationNames = []string{"empty-key-set", "one-other-galois-key", "rlk-only"}
 var deriveNames = []string{"NewEvaluator", "ShallowCopy", "WithKey"}
@@ -115,9 +124,12 @@ func evalSeqScenario(rt ring.Type, logN int, ch rk.Chain, bound int) engine.Scen
 			sig := "C04/evalseq/" + opName + "/"
 			known := knownKS(p, kp, st.level, st.isNTT)
 			bnd := ksBound(p, st.level, kp, beOf(p), bsOf(p))
-			if known != "" || !inScope(bnd, qAt(p, st.level)) {
-				c.Skip(skipKnown)
+			if !inScope(bnd, qAt(p, st.level)) {
+				c.Skip("noise bound implied by the key parameters ≥ Q/4")
 				return
+			}
+			if known != "" {
+				sig = known + "#"
 			}
 			Q := qAt(p, st.level)
 			var out *rlwe.Ciphertext
@@ -191,19 +203,19 @@ func evalSeqScenario(rt ring.Type, logN int, ch rk.Chain, bound int) engine.Scen
 				return nil
 			})
 			if pan != nil {
-				c.Fail(sig+"panic", "%s: panicked: %v", what, pan)
+				c.Fail(ksig(sig, "panic"), "%s: panicked: %v", what, pan)
 				return
 			}
 			if err != nil {
-				c.Fail(sig+"error", "%s: %v", what, err)
+				c.Fail(ksig(sig, "error"), "%s: %v", what, err)
 				return
 			}
 			if out.Level() != st.level || out.Degree() != 1 {
-				c.Fail(sig+"shape", "%s: output degree %d level %d, want 1 and %d", what, out.Degree(), out.Level(), st.level)
+				c.Fail(ksig(sig, "shape"), "%s: output degree %d level %d, want 1 and %d", what, out.Degree(), out.Level(), st.level)
 				return
 			}
 			c.Cover("evalseq-op", opName)
-			if !judge(c, sig+"phase", what, rt, rQ, out, s, want, bnd) {
+			if !judge(c, ksig(sig, "phase"), what, rt, rQ, out, s, want, bnd) {
 				return
 			}
 		}
